@@ -27,7 +27,7 @@ def make_input(rng):
         if kind == "cte":
             # a CTE named like the table it reads, exposing fewer columns: whatever a query's WITH clause defines must not
             # be visible to the other queries of the run, in any order
-            queries.append("-- name: Cte%s%d :many\nWITH %s AS (SELECT id FROM %s WHERE id = $1) SELECT * FROM %s;" % (t.title().replace("_", ""), i, t, t, t))
+            queries.append("-- name: Cte%s%d :many\nWITH %s AS (SELECT id FROM %s WHERE id > 0) SELECT * FROM %s;" % (t.title().replace("_", ""), i, t, t, t))
             if rng.random() < 0.7:
                 queries.append("-- name: All%s%d :many\nSELECT * FROM %s;" % (t.title().replace("_", ""), i, t))
         elif kind == "alias":
